@@ -16,9 +16,18 @@ from .refs.hll_ref import windows
 #   ["ungram", [key...], n]    update_ngram(list, n)
 
 
+class BadItem:
+    """Stands for an item that no sketch accepts (not bytes): the update must raise when it reaches it."""
+
+
 def effects(op):
     """The primitive adds (key bytes, multiplicity) an operation is documented to perform, in order."""
     t = op[0]
+    if t == "ulist_bad":
+        return [(unhx(k), 1) for k in op[1][: op[2]]]  # the part before the unacceptable item
+    if t == "ulist_rep":
+        ks = [unhx(k) for k in op[1]]  # one very long list: the given keys cycled n times (compact representation)
+        return [(ks[i % len(ks)], 1) for i in range(int(op[2]))]
     if t == "add":
         return [(unhx(op[1]), int(op[2]))]
     if t == "add1":
@@ -37,16 +46,46 @@ def effects(op):
     raise ValueError(op)
 
 
+def _typed(v, salt):
+    """The same multiplicity as a Python int or as a NumPy scalar (callers count with either)."""
+    v = int(v)
+    k = (salt + v) % 4
+    if k == 1 and 0 <= v < 2**63:
+        return np.int64(v)
+    if k == 2 and 0 <= v < 2**32:
+        return np.uint32(v)
+    if k == 3 and v >= 0:
+        return np.uint64(v) if v < 2**64 else v
+    return v
+
+
+def apply_failing(sketch, op):
+    """update(list) with an unacceptable item in the middle: must raise; returns the exception's type name (or None)."""
+    items = [unhx(k) for k in op[1]]
+    items.insert(op[2], "not-bytes" if op[2] % 2 else 12345)
+    try:
+        sketch.update(items)
+    except Exception as exc:  # noqa: BLE001
+        return type(exc).__name__
+    return None
+
+
 def apply_op(sketch, op):
     t = op[0]
+    if t == "ulist_bad":
+        return apply_failing(sketch, op)
+    if t == "ulist_rep":
+        ks = [unhx(k) for k in op[1]]
+        sketch.update([ks[i % len(ks)] for i in range(int(op[2]))])
+        return None
     if t == "add":
-        sketch.add(unhx(op[1]), int(op[2]))
+        sketch.add(unhx(op[1]), _typed(op[2], len(op[1])))
     elif t == "add1":
         sketch.add(unhx(op[1]))
     elif t == "ulist":
         sketch.update([unhx(k) for k in op[1]])
     elif t == "udict":
-        sketch.update({unhx(k): int(v) for k, v in op[1]})
+        sketch.update({unhx(k): _typed(v, i) for i, (k, v) in enumerate(op[1])})
     elif t == "ngram":
         sketch.add_ngram(unhx(op[1]), int(op[2]))
     elif t == "ungram":
@@ -61,7 +100,7 @@ def apply_primitive(sketch, op):
         sketch.add(k, v)
 
 
-def gen_op(rng, keys, max_value=None, ngram=True, big=0.12, zero=0.05, max_batch=6):
+def gen_op(rng, keys, max_value=None, ngram=True, big=0.12, zero=0.05, max_batch=6, failing=True):
     """One random operation over the key universe `keys` (list of bytes)."""
     r = rng.random()
     pick = lambda: keys[int(rng.integers(0, len(keys)))]  # noqa: E731
@@ -78,6 +117,9 @@ def gen_op(rng, keys, max_value=None, ngram=True, big=0.12, zero=0.05, max_batch
         return ["add1", hx(pick())]
     if r < 0.62:
         r2 = rng.random()
+        if 0.05 <= r2 < 0.09 and failing:
+            ks = [hx(pick()) for _ in range(int(rng.integers(1, max_batch + 2)))]
+            return ["ulist_bad", ks, int(rng.integers(0, len(ks) + 1))]
         if r2 < 0.03:
             # long lists of typical batch sizes (batched kernels cut remainders somewhere)
             n = int([64, 65, 128, 256, 500, 512, 1000, 1023, 1024, 1025, 2048][int(rng.integers(0, 11))])
@@ -117,7 +159,7 @@ def universe_of(ops_list, extra=()):
     u = []
     seen = set()
     for op in ops_list:
-        if op[0] in ("merge", "saveload", "query", "q"):
+        if op[0] in ("merge", "saveload", "query", "q", "copy", "tmpmerge"):
             continue
         for k, _ in effects(op):
             if k not in seen:
@@ -130,11 +172,19 @@ def universe_of(ops_list, extra=()):
     return u
 
 
-def gen_multi_history(rng, keys, n_sk, n_ev, p_merge=0.12, p_saveload=0.06, **opkw):
-    """Events on up to n_sk same-shaped sketches: [i, op] | ["merge", dst, src] | ["saveload", i, shm, via_module]."""
+def gen_multi_history(rng, keys, n_sk, n_ev, p_merge=0.12, p_saveload=0.06, p_copy=0.04, **opkw):
+    """Events on up to n_sk same-shaped sketches: [i, op] | ["merge", dst, src] | ["saveload", i, shm, via_module] |
+    ["copy", i, how] (the sketch object is replaced by copy.copy / copy.deepcopy / a pickle round trip of itself) |
+    ["tmpmerge", i, [ops...]] (a temporary sketch is filled, merged into i and dropped)."""
     events = []
     for _ in range(n_ev):
         r = rng.random()
+        if r > 1.0 - p_copy:
+            if rng.random() < 0.6:
+                events.append(["copy", int(rng.integers(0, n_sk)), ["deepcopy", "pickle", "copy"][int(rng.integers(0, 3))]])
+            else:
+                events.append(["tmpmerge", int(rng.integers(0, n_sk)), [gen_op(rng, keys, **dict(opkw, failing=False)) for _ in range(int(rng.integers(1, 4)))]])
+            continue
         if n_sk > 1 and r < p_merge:
             a = int(rng.integers(0, n_sk))
             b = int(rng.integers(0, n_sk - 1))
@@ -157,3 +207,28 @@ def final_merge_tree(rng, n_sk):
         events.append(["merge", alive[i], alive[j]])
         alive.pop(j)
     return events, alive[0]
+
+
+def apply_with_ghost(mon, sketch, op, ghost, ident=lambda k: k):
+    """Apply an operation and update the ghost counter.  A failing update must raise; what it leaves behind must be one of the
+    two admissible histories (everything before the unacceptable item was added, or nothing was): decided by n_added()."""
+    if op[0] != "ulist_bad":
+        mon.api(apply_op, sketch, op)
+        for k, v in effects(op):
+            ghost[ident(k)] += v
+        return
+    n0 = int(sketch.n_added())
+    exc = apply_failing(sketch, op)
+    mon.check(exc is not None, "update-with-an-unacceptable-item-raises", op=op)
+    n1 = int(sketch.n_added())
+    prefix = effects(op)
+    total = sum(v for _, v in prefix)
+    # n_added() may legitimately grow by less than the prefix when an add was cut short at a counter ceiling
+    if 0 < n1 - n0 <= total or (n1 == n0 and total == 0):
+        for k, v in prefix:
+            ghost[ident(k)] += v
+        mon.count("failed_updates:prefix_applied")
+    elif n1 == n0:
+        mon.count("failed_updates:nothing_applied_or_all_cut_short")
+    else:
+        mon.check(False, "failed-update-leaves-prefix-or-nothing(n_added)", op=op, n_added_before=n0, n_added_after=n1, prefix_total=total)
